@@ -525,6 +525,17 @@ def run(ctx):
             ctx.close()
             ctx.cap_hit("time budget hit in program enumeration")
             break
+    # crop / delay bookkeeping (second module; imported here because it imports SeqChooser from this one)
+    from mc.checks import c13b
+
+    n_before = ctx.n
+    for r in ctx.pmap(c13b.work, c13b.tasks(quick)):
+        ctx.add(r)
+        if ctx.time_left() < 20:
+            ctx.close()
+            ctx.cap_hit("time budget hit in crop enumeration")
+            break
+    ctx.cov["crop_programs_enumerated"] = ctx.n - n_before
     n_prog = ctx.n
     ctx.cov["programs_enumerated"] = n_prog
     ctx.cov["program_space_closed_form"] = expected
@@ -568,6 +579,10 @@ def run(ctx):
 
 def replay(case):
     res = Res()
+    if case.get("crop"):
+        from mc.checks import c13b
+
+        return c13b.replay(case)
     if "spec" in case:
         sp = case["spec"]
         spec = {"N": tuple(sp["N"]), "body": tuple((l, tuple(r)) for l, r in sp["body"]), "T": sp["T"], "shift": sp["shift"], "meas": sp["meas"]}
